@@ -30,6 +30,7 @@ RULES = {
     "C02-D3": "previous-header token: empty per message; assigned from the composed header on every path from the composition to the next unit",
     "C02-D4": "not-found edge: exactly one -113 with the unit text, result FALSE, no handler",
     "C02-D5": "handler-visible identity (param_list.cmd, cmd_raw.data/length) stored from the matched entry / composed header before the call-back",
+    "C02-D7": "the path is prepended with an overlap-safe copy: source (previous header) and destination (in front of the current header) lie in the same buffer, destination above source",
     "C02-D6": "composeCompoundCommand: deciding characters {'*', ':'} / {'*'} / ':'; pointer, length and copy use the same amount",
 }
 
@@ -410,7 +411,48 @@ def rule_d6(ck, prog, S):
     mm = list(f.calls("memmove")) + list(f.calls("memcpy"))
     sub = [n for n, t in C.stores(f) if t.get("path") == curp + "->ptr" and n.get("op") == "-="]
     add = [n for n, t in C.stores(f) if t.get("path") == curp + "->len" and n.get("op") == "+="]
-    if len(mm) != 1 or len(sub) != 1 or len(add) != 1:
+    # D7: how the bytes are moved
+    st7 = K.site(f, "overlap-safe-copy", 0)
+    copy_loops = []
+    for n, t in C.stores(f):
+        if n.get("op") == "=" and t.k in ("ArraySubscriptExpr", "UnaryOperator") and (t.get("path") or "").startswith(("%s->ptr" % curp, "*")):
+            r = n.child(1).strip_all_casts()
+            if (r.get("path") or "").startswith("%s->ptr" % prevp) or prevp in r.src:
+                copy_loops.append(n)
+    if [c for c in mm if c.get("callee") == "memmove"] and not copy_loops:
+        ck.holds("C02-D7", st7, K.loc(f, mm[0]), "memmove")
+    elif [c for c in mm if c.get("callee") != "memmove"]:
+        ck.violated("C02-D7", st7, K.loc(f, mm[0]),
+                    "the previous path is copied in front of the current header with %s although the two regions can overlap "
+                    "(`SYST:COMM:A;B`): the effective header is assembled from bytes that were already overwritten" % mm[0]["callee"])
+    elif copy_loops:
+        n = copy_loops[0]
+        body = [bd for h, bd in C.loops(f) if f.where[n.id][0].id in bd]
+        idx = None
+        t = C.store_target(n)
+        if t.k == "ArraySubscriptExpr":
+            idx = t.child(1).strip_all_casts().get("path")
+        steps = [m for m, tt in C.stores(f) if tt.get("path") == idx and m.k == "UnaryOperator" and body and f.where[m.id][0].id in body[0]] if idx else []
+        downs = [m for m in steps if m.get("op") == "--"]
+        ups = [m for m in steps if m.get("op") == "++"]
+        if downs and not ups:
+            ck.holds("C02-D7", st7, K.loc(f, n), "byte loop running from the last byte down (safe for destination above source)")
+        elif ups and not downs:
+            ck.violated("C02-D7", st7, K.loc(f, n),
+                        "the previous path is copied with an ascending byte loop; the destination lies above the source in the same "
+                        "buffer, so for `SYST:COMM:A;B` bytes are read after they were overwritten and the effective header is garbage")
+        else:
+            ck.undecided("C02-D7", st7, K.loc(f, n), "cannot determine the direction of the copy loop")
+    else:
+        ck.undecided("C02-D7", st7, K.loc(f), "no copy of the previous path found")
+    if copy_loops and not mm:
+        # amounts of a hand-written copy are covered by the bounds of its loop; the pointer/length pair is still checked
+        ok2 = len(sub) == 1 and len(add) == 1 and add[0].child(1).strip_all_casts().src == sub[0].child(1).strip_all_casts().src
+        if ok2:
+            ck.holds("C02-D6", st, K.loc(f, sub[0]), "ptr -= n; len += n with one amount (copy by loop, see D7)")
+        else:
+            ck.violated("C02-D6", st, K.loc(f), "pointer decrement and length increment do not use one amount")
+    elif len(mm) != 1 or len(sub) != 1 or len(add) != 1:
         ck.violated("C02-D6", st, K.loc(f), "expected one pointer decrement, one length increment and one copy (found %d, %d, %d)"
                     % (len(sub), len(add), len(mm)))
     else:
@@ -431,7 +473,12 @@ def rule_d6(ck, prog, S):
     loops = C.loops(f)
     idxs = [n for n, t in C.stores(f) if n.get("op") == "=" and n.child(1).strip_all_casts().get("path") == prevp + "->len"]
     dec = [n for n, t in C.stores(f) if n.k == "UnaryOperator" and n.get("op") == "--"]
-    if len(loops) == 1 and idxs and dec:
+    # the scan loop is the one that holds the ':' test
+    colon_blocks = {f.where[n.id][0].id for n in f.nodes.values() if n.k == "BinaryOperator" and n.get("op") == "==" and
+                    C.const_of(n.child(1)) == ord(":") and n.id in f.where}
+    scan_loops = [(h, bd) for h, bd in loops if colon_blocks & set(bd)]
+    dec_in = [n for n in dec if scan_loops and f.where[n.id][0].id in scan_loops[0][1]]
+    if len(scan_loops) == 1 and idxs and dec_in:
         ck.holds("C02-D6", st, K.loc(f, idxs[0]), "scan from previous->len downwards")
     else:
         ck.violated("C02-D6", st, K.loc(f), "the path scan does not run from the end of the previous header downwards")
